@@ -393,7 +393,19 @@ def concrete_side_conditions(nsA, nsB, A, B, routeB='members'):
         return x
     if beartype(conf=BeartypeConf(strategy=BeartypeStrategy.O0))(ann) is not ann:
         P.append('decorating under the O0 strategy is not the identity')
+    # the three public spellings of "decorate with a configuration" are one operation
+    o0 = BeartypeConf(strategy=BeartypeStrategy.O0)
+    if beartype(ann, conf=o0) is not ann:
+        P.append('beartype(obj, conf=O0) -- the single-call form -- is not the identity')
+
+    class KO0:
+        def m(self, x: int) -> int:
+            return x
+    m0 = KO0.__dict__['m']
+    if beartype(KO0, conf=o0) is not KO0 or KO0.__dict__['m'] is not m0:
+        P.append('beartype(cls, conf=O0) -- the single-call form -- wrapped a member or returned another class')
     return P
+
 
 
 def replay_c13(p):
